@@ -47,14 +47,17 @@ def checkSide (st : State) (p : Side) (id : Nat) : Option String :=
   if !isSublist (x.got id ++ queueItems c.queue) (x.kept id) then bad "got-sublist" else
   if x.broken id == false && x.got id ++ queueItems c.queue != x.kept id then bad "got-eq" else
   if (x.cbs id).isSome && x.broken id == false && !(c.queue.isNone && x.cbWants id == x.cbs id && x.ended id == false) then bad "cb-registered" else
-  if !endLast (x.cbLog id) then bad "end-last" else
-  if (x.cbLog id).contains .endmarker && (x.cbs id).isSome then bad "end-unregisters" else
+  if x.broken id == false && !endLast (x.cbLog id) then bad "end-last" else
+  if x.broken id == false && (x.cbLog id).contains .endmarker && (x.cbs id).isSome then bad "end-unregisters" else
   if (x.cbWants id).isNone && !((x.cbLog id).isEmpty && (x.cbs id).isNone) then bad "no-cb-before-setcallback" else
   if (x.cbWants id).isSome && x.ended id == false && x.broken id == false && x.cbs id != x.cbWants id then bad "cb-stays" else
   if x.cbWants id == some true && x.ended id && x.broken id == false && !(x.cbLog id).contains .endmarker then bad "end-eventually" else
-  if (x.cbLog id).contains .endmarker && x.cbWants id != some true then bad "end-on-request" else
-  if (x.got id).drop ((x.got id).length - (cbItems (x.cbLog id)).length) != cbItems (x.cbLog id) then bad "cb-suffix" else
+  if x.broken id == false && (x.cbLog id).contains .endmarker && x.cbWants id != some true then bad "end-on-request" else
+  if x.broken id == false && (x.got id).drop ((x.got id).length - (cbItems (x.cbLog id)).length) != cbItems (x.cbLog id) then bad "cb-suffix" else
   if x.ended id && x.broken id == false && c.registered then bad "ended-forgotten" else
+  if x.broken id == false && c.queue.isSome && (x.cbWants id).isSome then bad "aux-queue-nowants" else
+  if !c.created && (x.cbWants id).isSome then bad "aux-uncreated-nowants" else
+  if x.broken id == false && c.rclosed && !x.ended id then bad "aux-rclosed-ended" else
   if x.finished && !(x.ioOpen == false && !c.registered && (x.cbs id).isNone && (!c.alive || c.rclosed)) then bad "finished" else
   if x.closeSent id == false && x.out.any (·.isClosing id) then bad "closeSent-noClosing" else
   if x.closeSent id && x.broken id == false && !(c.closed || !c.alive) then bad "closeSent-refuses" else
